@@ -81,6 +81,10 @@ def build_schema(rng, fmt, redundant, neutral=True):
 
     for i in range(6):
         t, v, txt = mk('const', -(1 << 30) if not isar else 0, 1 << 31) if rng.random() < 0.5 else mk('const')
+        if isar and not neutral and i == 0:
+            # canary of the recorded finding: 1 + 2 << 3 is 17 in prophyc's grammar, 24 in Python and C++
+            t = E.Bin('+', E.Lit(1, 10), E.Bin('<<', E.Lit(2, 10), E.Lit(3, 10)))
+            v, txt = E.evaluate(t), E.render(t, rng, 0.0)
         if isar and v < 0:
             t, v, txt = mk('const', 0, 1 << 31)
         name = 'K%d' % i
